@@ -218,6 +218,21 @@ pub mod word_to_digit;
 #[cfg(feature = "verif")]
 pub mod verif {
     pub use crate::tokenizer::{tokenize, BasicToken};
+
+    static YIELD_HOOK: std::sync::OnceLock<fn()> = std::sync::OnceLock::new();
+
+    /// Install a function that is called at every scheduling point of the library
+    /// (the entry of each mutating `DigitString` operation). First call wins.
+    pub fn set_yield_hook(hook: fn()) {
+        let _ = YIELD_HOOK.set(hook);
+    }
+
+    #[inline]
+    pub(crate) fn yield_point() {
+        if let Some(hook) = YIELD_HOOK.get() {
+            hook()
+        }
+    }
 }
 
 pub use lang::{BasicAnnotate, LangInterpreter, Language};
